@@ -381,7 +381,36 @@ def prove(run, props_mod, extra_targets=(), timeout=1500):
         run.axioms[nm] = axs if axs else ["Closed under the global context"]
         run.obligation(f"theorem:{nm}", not badax,
                        "axioms outside the allow-list: " + ", ".join(badax))
+    if run.tier == "thorough" and os.environ.get("NV_SKIP_COQCHK") != "1":
+        coqchk(run, props_mod)
     return all(o[1] for o in run.obl)
+
+
+def coqchk(run, props_mod, timeout=1500):
+    """independent re-check of the compiled property file and everything it
+    depends on; records the axioms coqchk reports"""
+    cmd = ["timeout", str(timeout), "coqchk", "-silent", "-o", "-Q", ".",
+           "NV", f"NV.Props.{props_mod}"]
+    r = subprocess.run(cmd, cwd=COQ, capture_output=True, text=True)
+    out = r.stdout + r.stderr
+    summary = out[out.find("CONTEXT SUMMARY"):] if "CONTEXT SUMMARY" in out \
+        else out[-1500:]
+    bad = []
+    for label in ["relying on type-in-type", "relying on unsafe (co)fixpoints",
+                  "whose positivity is assumed"]:
+        m = re.search(re.escape(label) + r":\s*(.*)", summary)
+        if not m or "<none>" not in m.group(1):
+            bad.append(label)
+    m = re.search(r"\* Axioms:(.*?)\n\s*\n\* Constants", summary, flags=re.S)
+    axioms = []
+    if m and "<none>" not in m.group(1):
+        axioms = [a.strip() for a in m.group(1).split("\n") if a.strip()]
+    allow = re.compile("^(" + "|".join(AXIOM_ALLOW) + ")$")
+    ours = [a for a in axioms if a.startswith("NV.")]
+    run.extra["coqchk_axioms"] = axioms if axioms else ["<none>"]
+    run.obligation(f"coqchk:Props/{props_mod}",
+                   r.returncode == 0 and not bad and not ours,
+                   summary[-1500:])
 
 
 _FLT_SPECIAL = {"nan": "nan", "inf": "infinity", "-inf": "neg_infinity"}
